@@ -79,6 +79,9 @@ type Interp struct {
 	result   *HarnessResult
 	lastPanicPos string
 	fmtDepth int
+	funcsSeen map[*ssa.Function]bool
+	models    map[string]int
+	assumes   map[string]bool
 }
 
 func (in *Interp) fresh(prefix string, w int) *Term {
@@ -196,7 +199,9 @@ func (in *Interp) callFunction(caller *frame, fn *ssa.Function, args []value, en
 	if depth > in.maxDepth {
 		panic(pathEnd{"bound", "call depth limit reached in " + fn.String()})
 	}
-	in.P.noteFunc(fn)
+	if !in.funcsSeen[fn] {
+		in.funcsSeen[fn] = true
+	}
 	fr := &frame{in: in, caller: caller, fn: fn, env: make(map[ssa.Value]value, 16), depth: depth}
 	for i, p := range fn.Params {
 		fr.env[p] = args[i]
@@ -960,7 +965,7 @@ func (in *Interp) callSSA(fr *frame, fn *ssa.Function, args []value, env []value
 		return nil
 	}
 	if h := in.P.intrinsicFor(fn); h != nil {
-		in.P.noteModel(fn)
+		in.noteModelName(fn.String())
 		return h(fr, fn, args)
 	}
 	if pkgPathOf(fn) == "reflect" && !reflectPureOK(fn) {
@@ -977,7 +982,7 @@ func (in *Interp) spawn(fr *frame, fn value, args []value) {
 	if f, ok := fn.(*ssa.Function); ok && in.P.skipGo(f) {
 		return
 	}
-	in.P.noteAssumption("goroutines are sequentialised: `go f()` runs f to completion at the spawn point")
+	in.noteAssumption("goroutines are sequentialised: `go f()` runs f to completion at the spawn point")
 	defer func() {
 		if r := recover(); r != nil {
 			if gp, ok := r.(goPanic); ok {
@@ -1476,4 +1481,18 @@ func reflectPureOK(fn *ssa.Function) bool {
 		return true
 	}
 	return false
+}
+
+func (in *Interp) noteModelName(name string) {
+	if in.models == nil {
+		in.models = map[string]int{}
+	}
+	in.models[name]++
+}
+
+func (in *Interp) noteAssumption(a string) {
+	if in.assumes == nil {
+		in.assumes = map[string]bool{}
+	}
+	in.assumes[a] = true
 }
